@@ -1006,6 +1006,7 @@ class C11Check(LifeCheckBase):
         cur_dim = None
         events = 0
         window = deque(maxlen=spec["params"].get("window_size")) if spec["kind"] == "sliding" else None
+        window_known = True
         for t, op in enumerate(sc["ops"]):
             if op["op"] not in ("fit", "partial_fit"):
                 continue
@@ -1019,10 +1020,17 @@ class C11Check(LifeCheckBase):
                 ctx.log.add(op["op"], {"exc": type(e).__name__})
                 if op["op"] == "fit":
                     cur_dim = None
+                # a refused call (e.g. weighted after unweighted samples on a window) may have been refused half-way:
+                # what the window holds is unknown until the next successful fit
+                window_known = False
                 continue
             cur_dim = d
             events += 1
-            if window is not None:
+            if window is not None and op["op"] == "fit":
+                window_known = True
+            if window is not None and not window_known:
+                ctx.probe("window_state_unknown_after_refusal")
+            elif window is not None:
                 # what the sliding window holds now (reference: a deque of the samples it was given)
                 if op["op"] == "fit":
                     window.clear()
